@@ -509,6 +509,24 @@ Proof.
   - cbn [ei_type ei_exc exc_of ei_tb ei_text]. repeat split; eauto.
 Qed.
 
+(* what the parent receives (one transport): always a MaybeEncodingError record with the same
+   tb and text; its args are the worker's args iff the switch is on (D20 otherwise) *)
+Lemma encoding_record_received : forall fx mf r p ptb ptext e2,
+    encoding_record mf r p ptb ptext = Some e2 ->
+    exists e', roundtrip_gen fx e2 = Some e' /\
+               ei_type e' = CMee /\ x_cls (exc_of (ei_exc e')) = CMee /\
+               x_args (exc_of (ei_exc e')) =
+               (if fx then [AStr r; AStr (repr (payload_obj p))]
+                else [AStr (repr_str r); AStr (repr_str (repr (payload_obj p)))]) /\
+               ei_tb e' = ei_tb e2 /\ ei_text e' = ei_text e2.
+Proof.
+  intros fx mf r p ptb ptext e2 H.
+  destruct ptb as [|f rest]; [discriminate|].
+  destruct (encoding_record_spec mf r p (f :: rest) ptext) as [c [Hc He]]; [discriminate|].
+  rewrite He in H. inversion H; subst e2; clear H.
+  destruct fx; eexists; (split; [reflexivity|]); repeat split; reflexivity.
+Qed.
+
 (* the loop continues with the next request *)
 Theorem loop_continues : forall mf env mt job i o ptb ptext rest c n ms n',
     loop_guard mt c = true ->
